@@ -216,6 +216,9 @@ def run(ctx, shared=True):
         reuse(ctx, lambda c: c12.run(c, shared=False), ("C12.blob",), "C14blob", "blob-writer rule shared with C12: sample_posterior has already replaced /flow when the sampler stores its checkpoint, so a payload that is "
               "not written (or an old one that is kept) pairs the new flow with the particles of an earlier run")
     if shared:
+        reuse(ctx, lambda c: c12.run(c, shared=False), ("C12.before",), "C14before", "write-before-sampling rule shared with C12: every run that can write a checkpoint first replaces /flow with the proposal it "
+              "weights its particles under; a switch that can turn that write off (the defaults primed by resume_from_file, say) leaves new checkpoints next to the flow of an earlier fit")
+    if shared:
         reuse(ctx, lambda c: c12.run(c, shared=False), ("C12.probe",), "C14probe", "probe rule shared with C12: sample_posterior replaces /flow and the configuration whether or not the signature probe "
               "recognises the sampler; a checkpointing sampler the probe does not recognise runs without a file callback, so the file pairs the new flow with the checkpoint an earlier run left")
     from . import c13
